@@ -97,7 +97,7 @@ var ruleNamePool = []string{
 	"A", "B", "C", "D", "E", "S", "T", "X", "Y", "Expr", "Term", "Factor", "Atom", "Item", "List",
 	"Start", "start", "rule", "rule_x", "_r", "__", "R_", "ws", "Ident", "Number", "Str", "EOL", "EOF_",
 	"Ünï", "Δ", "λx", "名前", "Ж", "ß", "ruleWithAVeryLongNameIndeedSoLongThatItWraps",
-	"i", "ii", "ix", "p", "pL", "x2d", "u00e9", "n", "t", "A1b", "R2D2x",
+	"i", "ii", "ix", "p", "pL", "x2d", "u00e9", "n", "t", "A1b", "R2D2x", "Tok1", "N10", "v2",
 }
 
 var labelPool = []string{
@@ -214,6 +214,10 @@ func (s *genState) pickNames(n int) {
 		switch {
 		case s.cfg.Avoid.ReservedRuleNames && !s.cfg.BootstrapSubset && !s.cfg.Compilable && s.r.Intn(12) == 0:
 			nm = reservedRulePool[s.r.Intn(len(reservedRulePool))]
+		case len(s.names) > 0 && s.r.Intn(4) == 0:
+			// a name that differs from an existing one only by a separator-like tail (`Tok1` / `Tok1_`): the methods of the
+			// two rules (`on<Rule><index>`) must still be different methods
+			nm = s.names[s.r.Intn(len(s.names))] + []string{"_", "_", "_1", "x", "1_"}[s.r.Intn(5)]
 		default:
 			nm = ruleNamePool[s.r.Intn(len(ruleNamePool))]
 			if s.r.Intn(5) == 0 {
@@ -579,6 +583,28 @@ func (s *genState) class(c ctx) ast.Expression {
 	}
 	var items []ClassItem
 	hasWide := false
+	if r.Intn(8) == 0 {
+		// the classes real grammars are full of: several ranges in ascending (or any) order plus single characters that lie
+		// BETWEEN them ([A-Za-z_], [0-9A-F:], [0-9A-Za-z_$]): what happens to `_` must not depend on the ranges around it
+		rng := func(lo, hi rune) ClassItem { return ClassItem{Lo: lo, Hi: hi, IsRange: true} }
+		chr := func(c rune) ClassItem { return ClassItem{Lo: c} }
+		tmpl := [][]ClassItem{
+			{rng('A', 'Z'), rng('a', 'z'), chr('_')},
+			{rng('0', '9'), rng('A', 'Z'), rng('a', 'z'), chr('_')},
+			{rng('0', '9'), rng('A', 'F'), chr(':')},
+			{rng('0', '9'), rng('a', 'f'), chr('A'), chr('_')},
+			{rng('!', '/'), rng('a', 'z'), chr('@'), chr('^')},
+			{rng('a', 'c'), rng('x', 'z'), chr('m')},
+			{chr('_'), rng('a', 'z'), rng('A', 'Z')},
+			{rng('a', 'z'), chr('_'), rng('A', 'Z'), chr('[')},
+		}[r.Intn(8)]
+		items = append(items, tmpl...)
+		if r.Intn(3) == 0 {
+			r.Shuffle(len(items), func(i, j int) { items[i], items[j] = items[j], items[i] })
+		}
+		n = 0
+		hasWide = true
+	}
 	for i := 0; i < n; i++ {
 		switch x := r.Intn(10); {
 		case x < 5:
